@@ -139,7 +139,7 @@ class ListPack(_Pack):
     name = "pysnark.pack:PackList.pack"
 
     def configs(self, tier):
-        return [dict(schema=s, kind=k) for s in ("flat", "nested", "repeat_after_wide", "reused_packer") for k in ("plain", "secret")]
+        return [dict(schema=s, kind=k) for s in ("flat", "nested", "repeat_after_wide", "reused_packer", "row_grown_after_first_use") for k in ("plain", "secret")]
 
     def _schema(self, c, name):
         pk = _pk(c)
@@ -149,6 +149,13 @@ class ListPack(_Pack):
             # ONE packer object describes two fields (nib = PackIntMod(16); PackList([nib, PackBool(), nib]))
             nib = pk.PackIntMod(16)
             return pk.PackList([nib, pk.PackBool(), nib]), [16, 2, 16]
+        if name == "row_grown_after_first_use":
+            # a schema is a mutable object: the record's width is asked once, THEN the nested row gets one more field
+            row = pk.PackList([pk.PackIntMod(8)])
+            rec = pk.PackList([row, pk.PackIntMod(16), pk.PackRepeat(pk.PackBool(), 2)])
+            rec.bitlen()
+            row.lst.append(pk.PackBool())
+            return rec, None
         if name == "repeat_after_wide":
             # the repetition starts at an offset larger than the width of its element
             return pk.PackList([pk.PackIntMod(100), pk.PackRepeat(pk.PackBool(), 4), pk.PackRepeat(pk.PackIntMod(5), 2)]), None
@@ -166,6 +173,11 @@ class ListPack(_Pack):
             vals = [mk("v0", 16), mk("v1", 2), mk("v2", 16)]
             self._mods = [16, 2, 16]
             self._flat = list(vals)
+        elif cfg["schema"] == "row_grown_after_first_use":
+            a, b, cc, d1, d2 = mk("a", 8), mk("b", 2), mk("cc", 16), mk("d1", 2), mk("d2", 2)
+            vals = [[a, b], cc, [d1, d2]]
+            self._mods = [8, 2, 16, 2, 2]
+            self._flat = [a, b, cc, d1, d2]
         elif cfg["schema"] == "repeat_after_wide":
             a = mk("a", 100)
             bs = [mk("f%d" % i, 2) for i in range(4)]
